@@ -274,7 +274,7 @@ def end_to_end(spec, info):
         key = "raises:" + tag
         if "more than 2 qubits" in info["error"] and any(g[0] == "M" and len(g[1]) > 2 for g in spec["gates"]) \
                 and "Star" in tag:
-            key = "meas3_raises:Star"
+            key = "meas3_raises:StarConnectivityPlacer" if info["error"].startswith("PlacementError") else "meas3_raises:Star"
         if "magic basis" in info["error"]:
             key = "unroller_raises:magic_basis"     # numerical KAK path of the unroller (C10)
         return [(key, "pipeline raised " + info["error"], {"error": info["error"]})]
@@ -452,6 +452,11 @@ def defect_cases(rng):
     spec = dict(nodes=[0, 1, 2, 3, 4], edges=[[0, 1], [0, 2], [0, 3], [0, 4]], on_qubits=None, k=5, wire_names=[0, 1, 2, 3, 4],
                 gates=[["CZ", [1, 2], {}], ["M", [0, 1, 2], {"register_name": "r"}]],
                 pipeline={"pre": True, "placer": None, "router": ["StarConnectivityRouter", {}], "natives": "default"})
+    out.append(("star5", spec))
+    # StarConnectivityPlacer with a three-qubit measurement (its own loop refuses every gate on > 2 qubits)
+    spec = dict(nodes=[0, 1, 2, 3, 4], edges=[[0, 1], [0, 2], [0, 3], [0, 4]], on_qubits=None, k=5, wire_names=[0, 1, 2, 3, 4],
+                gates=[["CZ", [0, 1], {}], ["M", [1, 2, 3], {"register_name": "r"}]],
+                pipeline={"pre": True, "placer": ["StarConnectivityPlacer", {}], "router": ["Sabre", {"seed": 0}], "natives": "default"})
     out.append(("star5", spec))
     # regression: ShortestPaths on a long line (qubit moves more than one step)
     for sd in range(4):
